@@ -8,13 +8,20 @@ resolved by search (the observations must be explained by some choice the
 model allows).
 Monitors: recent_twice, recent_readonly, recent_count, first_select,
 store_recent.
+Round 5: histories in which connections end in every way (harness/c17_ends.py,
+coq/theories/UidRecent/Drop*.v): LOGOUT, EOF, reset, over-long line, read
+error, cancellation, EOF inside a literal, BAD limit, exception in a command
+body, failing write - with and without a selection, deliveries before/after.
 """
-from .. import uidrecent
+from .. import c17_ends, uidrecent
 
 
 def run(ctx) -> None:
     uidrecent.run_check(ctx, 'C17')
+    c17_ends.run_ends(ctx)
 
 
 def replay(ctx, obj) -> int:
+    if obj.get('ends'):
+        return c17_ends.replay_history(ctx, obj)
     return uidrecent.replay_history(ctx, obj)
